@@ -62,8 +62,9 @@ def thorough_extras(prop, reg, R):
         R2 = framework.Report(prop, R.level)
         reg[prop](A2, R2, "quick")
         for o in R2.obs:
+            # (the structural key is kept as it is: a known finding is the same finding in the cfg(test) build of the library)
             R.obs.append(framework.Ob(o.rule, "cfg(test) | " + o.key.split(" | ", 1)[1], o.ok, o.detail, o.site, o.what,
-                                      ("cfg(test) | " + o.skey.split(" | ", 1)[1]) if o.skey else None))
+                                      o.skey.split(" | ", 1)[1] if o.skey else None))
         R.info["cfg_test_build"] = dict(bodies=len(A2.facts.bodies), obligations=len(R2.obs), source_hash=k2)
     except Imprecision as e:
         R.ob("A0", "cfg(test) | fail closed: %s" % e, False)
